@@ -15,6 +15,7 @@ mod eg20;
 mod egt;
 mod eg14;
 mod egr;
+mod egq;
 
 fn main() {
     common::install_panic_hook();
@@ -38,6 +39,7 @@ fn main() {
         "egt" => egt::main(&a),
         "eg14" => eg14::main(&a),
         "egr" => egr::main(&a),
+        "egq" => egq::main(&a),
         "features" => {
             println!("checks={} explanations={}", cfg!(feature = "checks"), cfg!(feature = "explanations"));
         }
